@@ -57,6 +57,7 @@ inductive Op
   | activate (n : String) (v : Nat)
   | deleteVersion (n : String) (v : Nat)
   | delete (n : String)
+  deriving DecidableEq
 
 /-- error classes as the server distinguishes them (server.go:366-383) -/
 inductive Res
